@@ -353,6 +353,24 @@ for _n in ("lt", "le", "gt", "ge"):
     builtin("core::cmp::PartialOrd::" + _n)(_cmp_trait(_n))
 
 
+def _float_assign(op):
+    """<f32/f64 as OpAssign>::op_assign(&mut a, b) reached through a generic parameter: a = a op b (IEEE, no panic)"""
+    def f(w, st, fr, path, targs, args, dty):
+        if not targs or targs[0][0] != "float" or not isinstance(args[0], Ref):
+            return NOT_HANDLED
+        a = w.load(st, args[0].obj, args[0].proj)
+        b = _deref_term(w, st, args[1])
+        if not (isinstance(a, T) and isinstance(b, T)):
+            return NOT_HANDLED
+        w.store_to(st, args[0].obj, args[0].proj, tm.app("f" + op, [a, b], targs[0][1]))
+        return UNIT
+    return f
+
+
+for _t, _n, _op in (("AddAssign", "add_assign", "Add"), ("SubAssign", "sub_assign", "Sub"), ("MulAssign", "mul_assign", "Mul"), ("DivAssign", "div_assign", "Div")):
+    builtin("core::ops::%s::%s" % (_t, _n))(_float_assign(_op))
+
+
 @builtin("core::clone::Clone::clone")
 def _clone(w, st, fr, path, targs, args, dty):
     if not targs or targs[0][0] not in ("int", "bool", "char", "float"):
